@@ -2,10 +2,10 @@ package main
 
 import (
 	"fmt"
-	"sync/atomic"
 	"go/types"
 	"sort"
 	"strings"
+	"sync/atomic"
 )
 
 const (
